@@ -28,7 +28,7 @@ Table == [i \in DOMAIN Layouts |->
              unkhdr |-> Hdr(Layouts[i].unk),
              domhdr |-> SocksWrapDom(Layouts[i].dom.name, Layouts[i].dom.port, <<>>)]]
 
-St == [st |-> st, regs |-> regs, sess |-> sess, circ |-> circ, hnd |-> hnd]
+St == [ctl |-> ctl, st |-> st, regs |-> regs, sess |-> sess, circ |-> circ, hnd |-> hnd]
 MInit == Init /\ PrintT(ToJson([table |-> Table])) /\ PrintT(ToJson([init |-> St, obs |-> out]))
 MNext == Next /\ PrintT(ToJson([src |-> St, act |-> ev', dst |-> St', obs |-> out']))
 MSpec == MInit /\ [][MNext]_vars
